@@ -1059,6 +1059,14 @@ class Case:
             self.h("files:%s:%s" % (opname, "empty" if not rec else "nonempty"))
             # the property on the implementation: same trajectory, same costs
             ids, params, cost = res
+            # one (iteration, id) entry per recorded iteration, whatever the file format
+            try:
+                nid = len(ids) if ids is not None else None
+            except TypeError:
+                nid = None
+            if nid is not None and nid != len(rec) and not (opname == "wsup" and not rect):
+                self.find("monitor", "%s/iterations-count" % writer, "read_raw_file(iter=True) of the %s output returns %d iteration entries %r for %d recorded iterations"
+                          % (writer, nid, list(ids)[:6], len(rec)))
             if opname == "wraw":
                 tp = [pv_of(p) for p in params]
                 if not same_tok(tp, [rc["x"] for rc in rec]):
